@@ -381,6 +381,7 @@ func verdict(c *mc.Ctx, r result, e expect, sw []byte, what, fam string) {
 func runCase(c *mc.Ctx, m1, m2, m3 []byte, d delivery, e expect, what, fam string) {
 	r, sw := runFull(c, m1, m2, m3, d)
 	c.AddExecutions(1)
+	c.Case(what, fmt.Sprintf("%v %x", r.err != nil, sw))
 	verdict(c, r, e, sw, what, fam)
 }
 
@@ -578,7 +579,7 @@ func scenarios(cfg *mc.Config, emit func(mc.Scenario)) {
 					dribble = append(dribble, k)
 				}
 				cutsets = append(cutsets, dribble)
-				if thorough && len(m) <= 24 {
+				if (thorough && len(m) <= 24) || len(m) <= 12 {
 					for a := 1; a < len(m); a++ {
 						for b := a + 1; b < len(m); b++ {
 							cutsets = append(cutsets, []int{a, b})
